@@ -516,7 +516,8 @@ class SupvisorsOptions:
         """ Convert a string into a list of period values. """
         try:
             period = float(value)
-            if 1.0 > period or period > 3600.0:
+            # NOTE: the test is written so that nan is rejected too
+            if not (1.0 <= period <= 3600.0):
                 raise ValueError
             return period
         except ValueError:
@@ -537,7 +538,8 @@ class SupvisorsOptions:
         for val in str_periods:
             try:
                 period = float(val)
-                if 1.0 > period or period > 3600.0:
+                # NOTE: the test is written so that nan is rejected too
+                if not (1.0 <= period <= 3600.0):
                     raise ValueError
                 periods.append(period)
             except ValueError:
